@@ -88,6 +88,10 @@ def generate(tier, rng):
                 for c in CONFIGS:
                     if key in TYPES: out.append("CT %s %s 0 %s" % (key, hexs(e + b"\x00"), c))
                     if key in LEN_TYPES: out.append("CL %s %s %s" % (key, h, c))
+    # counters of the two skip twins at the 2^16 boundary (the no-alloc twin counts open indefinite containers itself)
+    for d in (65535, 65536, 65537):
+        for e in (b"\x9f" * d + b"\xff" * d, b"\xbf\x00" * d + b"\x00" + b"\xff" * d):
+            for c in CONFIGS: out.append("CD skip %s 0 %s" % (hexs(e + b"\x00"), c))
     # unknown fields inside field structs: skip of an indefinite item in position >= arity
     for extra in (b"\x9f\xff", b"\xbf\xff", b"\x5f\x41\x01\xff", b"\x7f\xff", b"\x80", b"\x9f\x9f\xff\xff"):
         for enc in (b"\x83\x01\x02" + extra, b"\x9f\x01\x02" + extra + b"\xff", b"\x84\x01\x02" + extra + extra):
